@@ -72,6 +72,7 @@ var recipes = []recipe{
 	{"proposer-deactivated", func(r *hx.Rng, s uint64, o hx.Counter, a bool) []Case {
 		return runPauseProposer(PauseParams{Seed: s, Interval: pickU(r, 1, 1, 3, 17280), How: pickS(r, "pause", "evidence", "none"), Compound: r.Chance(70)}, o)
 	}, 2},
+	{"recovery-rewards", func(r *hx.Rng, s uint64, o hx.Counter, a bool) []Case { return runRR(drawRR(r, s, a), o) }, 3},
 	{"random", recipeRandom, 6},
 }
 
